@@ -992,7 +992,7 @@ func (e *Engine) mergeVal2(g *T, v, old Value) Value {
 		return r
 	case *TimeVal:
 		if o, ok := old.(*TimeVal); ok {
-			return &TimeVal{Ns: Ite(g, x.Ns, o.Ns)}
+			return &TimeVal{Sec: Ite(g, x.Sec, o.Sec), Nsec: Ite(g, x.Nsec, o.Nsec)}
 		}
 	case *IntVal:
 		if o, ok := old.(*IntVal); ok && o.Nil == x.Nil {
